@@ -11,7 +11,8 @@ import (
 // token written. Equal token sequences hash equal by congruence; everything else
 // (collisions included) is left to the solver.
 type HashModel struct {
-	H *smt.Term
+	H     *smt.Term
+	Seed0 *smt.Term // the state right after SetSeed (for Reset)
 }
 
 // tokU64 marks a buffer filled by binary.BigEndian.PutUint64 with the value T.
@@ -30,8 +31,17 @@ func hashOf(m *Machine, v Value) *HashModel {
 		return hm
 	}
 	hm := &HashModel{H: m.Ctx.Var("hash.zeroseed", smt.SInt)}
+	hm.Seed0 = hm.H
 	s[0] = hm
 	return hm
+}
+
+// noteHashWrite reports a state change of a hasher that lives in shared pre-state (two
+// concurrent calls would interleave their writes into it).
+func noteHashWrite(m *Machine, v Value) {
+	if p, ok := v.(*Value); ok && p != nil && m.TrackShared && m.sharedCells[p] {
+		m.noteSharedWrite("write into a shared maphash.Hash")
+	}
 }
 
 func (m *Machine) mix(fn string, h *smt.Term, tok *smt.Term) *smt.Term {
@@ -50,12 +60,13 @@ func registerHash(p *Program) {
 		return Struct{SymInt{s}}
 	})
 	reg("(*hash/maphash.Hash).SetSeed", func(m *Machine, fr *frame, args []Value) Value {
+		noteHashWrite(m, args[0])
 		pv := args[0].(*Value)
 		if pv == nil {
 			nilDeref("SetSeed")
 		}
 		seed := args[1].(Struct)[0]
-		(*pv).(Struct)[0] = &HashModel{H: m.intTerm(seed)}
+		(*pv).(Struct)[0] = &HashModel{H: m.intTerm(seed), Seed0: m.intTerm(seed)}
 		return nil
 	})
 	writeToks := func(m *Machine, hm *HashModel, bs []Value) {
@@ -73,17 +84,20 @@ func registerHash(p *Program) {
 		}
 	}
 	reg("(*hash/maphash.Hash).Write", func(m *Machine, fr *frame, args []Value) Value {
+		noteHashWrite(m, args[0])
 		hm := hashOf(m, args[0])
 		bs := args[1].([]Value)
 		writeToks(m, hm, bs)
 		return Tuple{int64(len(bs)), Iface{}}
 	})
 	reg("(*hash/maphash.Hash).WriteByte", func(m *Machine, fr *frame, args []Value) Value {
+		noteHashWrite(m, args[0])
 		hm := hashOf(m, args[0])
 		hm.H = m.mix("mixByte", hm.H, m.intTerm(args[1]))
 		return Iface{}
 	})
 	reg("(*hash/maphash.Hash).WriteString", func(m *Machine, fr *frame, args []Value) Value {
+		noteHashWrite(m, args[0])
 		hm := hashOf(m, args[0])
 		switch s := args[1].(type) {
 		case string, *AStr:
@@ -95,6 +109,18 @@ func registerHash(p *Program) {
 			return Tuple{int64(len(s.B)), Iface{}}
 		}
 		panic("WriteString: bad arg")
+	})
+	reg("(*hash/maphash.Hash).Reset", func(m *Machine, fr *frame, args []Value) Value {
+		noteHashWrite(m, args[0])
+		pv := args[0].(*Value)
+		if pv == nil {
+			nilDeref("Reset")
+		}
+		// back to the state right after SetSeed: the model keeps the seed in Seed0
+		if hm, ok := (*pv).(Struct)[0].(*HashModel); ok && hm.Seed0 != nil {
+			hm.H = hm.Seed0
+		}
+		return nil
 	})
 	reg("(*hash/maphash.Hash).Sum64", func(m *Machine, fr *frame, args []Value) Value {
 		return SymInt{hashOf(m, args[0]).H}
